@@ -15,6 +15,10 @@ MCWCSmall == {0, 12, 600000, 1800000}
 MCWCFull  == {-600000, 0, 12, 300000, 399960, 600000, 1200000, 1800000}
 MCWCReset == {-600000, 0, 600000}
 MCTags2 == {{}, {"t1"}}
+MCWUHist == {0, 600000, 1200000}
+MCWCHist == {0, 600000}
+MCOpsWeight == {"weight"}
+MCOpsAll == {"weight", "add", "del"}
 MCSvc1 == {"A"}
 MCSvc2 == {"A", "B"}
 MCTags1 == {{}}
@@ -32,13 +36,13 @@ CaseJson ==
     LET v == Vec(tg) IN
     [unit |-> Unit,
      adds |-> TargetJson(tg0),
-     cmds |-> [i \in 1..Len(cmds) |-> [svc |-> cmds[i].svc, sel |-> cmds[i].sel, w |-> cmds[i].w]],
+     cmds |-> [i \in 1..Len(cmds) |-> [op |-> cmds[i].op, svc |-> cmds[i].svc, sel |-> cmds[i].sel, w |-> cmds[i].w]],
      fk   |-> v,
      ew   |-> [i \in 1..Len(v) |-> [n |-> Eff(v, i).n, d |-> Eff(v, i).d]],
      lo   |-> [i \in 1..Len(v) |-> SlotLo(100, 100, Eff(v, i))],
      hi   |-> [i \in 1..Len(v) |-> SlotHi(100, 100, Eff(v, i))]]
 
-Emit == /\ pc = "cfg"
+Emit == /\ pc = "cfg" /\ tg # <<>>
         /\ PrintT(ToJson(CaseJson))
         /\ pc' = "done"
         /\ UNCHANGED <<tg0, tg, cmds, ringvars>>
